@@ -71,9 +71,9 @@ def run(rep):
     rep.rule("R03.f", "bin accounting: for every ordering of obs vs the bin ends alpha+beta grows by width x weight; outlier bins / frequencies get Hersbach's increments; uncertainty = sum of weighted pairwise |differences|")
     rep.assume("qsort sorts ascending with the comparator of c_crps.c; ensemble members within a forecast are finite")
     K = ckern.analyze(rep.repo)
-    fn = K["fns"].get("c_crps")
-    if fn is None:
+    if K["fns"].get("c_crps") is None:
         raise AnalysisError("stat/c_crps.c: c_crps not found")
+    fn = ckern.normalised(K, "c_crps", rep.repo)
     file = fn["file"]
     top = [s for s in fn["body"].get("inner", []) if s.get("kind")]
     tloops = [s for s in top if s.get("kind") == "ForStmt"]
@@ -358,10 +358,12 @@ def run(rep):
     stores = stores_to(final, "reliability_table")
     for st in stores:
         idx = ceval.to_expr(strip(st["inner"][0])["inner"][1], {"ncol_rt": num(7)})
-        val = text(st["inner"][1]).replace(" ", "")
         off = cn.ratio(idx) - cn.ratio(('mul', ('sym', fv), num(7)))
         if off.is_const():
-            cols[int(off.cval())] = val
+            try:
+                cols[int(off.cval())] = ceval.to_expr(st["inner"][1], {})
+            except Undecided:
+                cols[int(off.cval())] = None
     mod = Mod(rep.repo, "stat/metrics.py")
     pf = mod.func("crps")
     labels_tab = labels_dec = None
@@ -372,10 +374,23 @@ def run(rep):
                 labels_tab = vals
             if len(vals) == 5:
                 labels_dec = vals
-    want_cols = {"freq": "pj", "a": f"a[{fv}]", "b": f"b[{fv}]", "g": f"g[{fv}]", "rank": f"o[{fv}]", "reliability": f"r[{fv}]", "crps_potential": f"c[{fv}]"}
-    okc = labels_tab is not None and len(cols) == 7 and all(want_cols.get(l) == cols.get(i) for i, l in enumerate(labels_tab))
+
+    def rd_(a):
+        return ('call', 'A:' + a, (('sym', fv),))
+    want_cols = {"freq": ('div', ('sym', fv), ('sym', 'ncol')), "a": rd_("a"), "b": rd_("b"), "g": rd_("g"), "rank": rd_("o"),
+                 "reliability": rd_("r"), "crps_potential": rd_("c")}
+
+    def same(l, got):
+        w = want_cols.get(l)
+        if w is None or got is None:
+            return False
+        try:
+            return cn.ratio(w) == cn.ratio(got)
+        except Undecided:
+            return False
+    okc = labels_tab is not None and len(cols) == 7 and all(same(l, cols.get(i)) for i, l in enumerate(labels_tab))
     rep.check(okc, "R03.b", "stat/metrics.py", "crps", "table columns labelled in the kernel's store order",
-              f"kernel stores {[cols.get(i) for i in range(7)]}, labels {labels_tab}", line=pf.lineno)
+              f"kernel stores {[show(cols[i]) if cols.get(i) is not None else None for i in range(7)]}, labels {labels_tab}", line=pf.lineno)
     rep.check(labels_dec == ["crps", "reliability", "resolution", "uncertainty", "potential"], "R03.b", "stat/metrics.py", "crps",
               "decomposition labelled [crps, reliability, resolution, uncertainty, potential] (kernel order 0..4)", f"labels {labels_dec}", line=pf.lineno)
 
